@@ -405,16 +405,16 @@ theorem processBlocks_trap (env : Env) (G : List Block) :
         exact hpre
 
 /-- the header loop traps only inside the header validation library -/
-theorem insertNextHeaders_trap (env : Env) : ∀ (raws : List String) (s : State),
-    insertNextHeaders env s raws = none →
+theorem insertNextHeadersAll_trap (env : Env) : ∀ (raws : List String) (s : State),
+    insertNextHeadersAll env s raws = none →
     ∃ s' h chain, Header.validateHeader s'.network (validationStore s' chain) (hdrOfNext h) env.now = .trap
-  | [], s, h => by simp [insertNextHeaders] at h
+  | [], s, h => by simp [insertNextHeadersAll] at h
   | raw :: rest, s, h => by
-    unfold insertNextHeaders at h
+    unfold insertNextHeadersAll at h
     split at h
     · cases h
     · split at h
-      · exact insertNextHeaders_trap env rest s h
+      · exact insertNextHeadersAll_trap env rest s h
       · split at h
         · cases h
         · rename_i chain _
@@ -423,6 +423,11 @@ theorem insertNextHeaders_trap (env : Env) : ∀ (raws : List String) (s : State
           · cases h
           · split at h
             · cases h
-            · exact insertNextHeaders_trap env rest _ h
+            · exact insertNextHeadersAll_trap env rest _ h
+
+theorem insertNextHeaders_trap (env : Env) (raws : List String) (s : State)
+    (h : insertNextHeaders env s raws = none) :
+    ∃ s' h chain, Header.validateHeader s'.network (validationStore s' chain) (hdrOfNext h) env.now = .trap :=
+  insertNextHeadersAll_trap env _ s h
 
 end Btc.Lemmas.FullSys
